@@ -298,4 +298,13 @@ theorem openClient_sealDir8 {P : Prims} (hP : P.Ok) (key : Bytes) (m : Msg) (pad
   rw [this]
   exact openInner_plaintext m pad hm hpar
 
+/-! ### a trivial instance of the primitives, to show the hypotheses are satisfiable -/
+
+/-- constant 20-byte digest, identity cipher: satisfies `Prims.Ok` (used only in `example`s) -/
+def toyPrims : Prims := ⟨fun _ => zeros 20, fun _ _ x => x, fun _ _ x => x⟩
+
+theorem toyPrims_ok : toyPrims.Ok :=
+  ⟨fun _ => by simp [toyPrims], fun _ _ _ _ _ _ _ => rfl, fun _ _ _ _ _ _ _ => rfl,
+   fun _ _ _ _ _ _ _ => rfl, fun _ _ _ _ _ _ _ => rfl⟩
+
 end Mtv.Envelope
